@@ -305,6 +305,15 @@ class Check:
         kf = os.path.join(VERIF, "known_findings.json")
         self.known = [k for k in json.load(open(kf)).get("findings", []) if k.get("property") == prop_id] if os.path.exists(kf) else []
 
+    def corpus(self):
+        """minimised past failures (and regression cases of repaired defects): run first"""
+        d = os.path.join(VERIF, "corpus", self.id)
+        out = []
+        if os.path.isdir(d):
+            for f in sorted(os.listdir(d)):
+                out.append(open(os.path.join(d, f)).read())
+        return out + [k["exemplar"] for k in self.known if k.get("exemplar")]
+
     def quick(self):
         return self.tier == "quick"
 
